@@ -16,6 +16,7 @@ extern "C" {
 // ---------------------------------------------------------------- ghost state
 usize g_woff, g_woff2, g_cmp_wit, g_cmp_k; // contracts/memory.c
 usize g_k;            // ghost view index
+usize g_fk;           // ghost index used by loop invariants (contracts/*.loops.json)
 usize g_exp_len;      // reference model: length afterwards
 bool g_exp_has;       // reference model fixes byte g_k ...
 char g_exp_byte;      // ... to this value
@@ -242,6 +243,19 @@ void h_ctor_cap()
   String a(c);
   NV_POST("String(capacity): empty with capacity", post_string(&a));
   NV_REACH("ctor_cap.return");
+}
+
+void h_ctor_fill()
+{
+  NV_STRING_STATICS();
+  NV_INPUT(usize, n); NV_INPUT(char, c);
+  NV_GHOST();
+  NV_ASSUME(n <= NV_MAXSZ);
+  g_b = 0; g_blk0 = 0; g_exp_len = n; g_exp_mincap = n; g_fk = k;
+  if(k < n) { g_exp_has = true; g_exp_byte = c; g_woff = HDR + k; } // written directly (not through Memory::copy)
+  String a(n, c);
+  NV_POST("String(length, c): length copies of c", post_string(&a) && a.data->str[n] == 0);
+  NV_REACH("ctor_fill.return");
 }
 
 void h_dtor()
@@ -611,7 +625,7 @@ void h_eq()
 
 
 // -------------------------------------------------------------- find(char) / findLast(char)  (loop contracts)
-const char* g_fs_str; usize g_fs_len; usize g_fk; char g_fc; // ghosts for the scanning loops
+const char* g_fs_str; usize g_fs_len; char g_fc; // ghosts for the scanning loops
 bool str_find_post(const String* a, char c, const char* ret)
 {
   const char* b = a->data->str; usize len = a->data->len;
